@@ -165,6 +165,16 @@ Theorem C10_cubic_gate_judge_model : forall case rows,
   CcGate.cubic_gate_judge case (Cubic.replay case rows) = true.
 Proof. exact CcGateJudge.gate_judge_replay. Qed.
 
+(* non-vacuity of the judgement: it rejects an allowance that turns on at an ACK, and a second allowance
+   inside one recovery period (loss, packet sent, loss again with no ACK in between); it accepts the latter
+   history when the allowance stays off *)
+Example C10_cubic_gate_judge_rejects :
+  let z9 (f : Z) := [0; 0; 0; 0; 0; f; 0; 0; 0]%Z in
+  CcGate.cubic_gate_judge [1200; 2;0;0;0;0]%Z (z9 0 ++ z9 1)%Z = false /\
+  CcGate.cubic_gate_judge [1200; 3;100;0;0;0; 1;100;0;0;0; 3;100;0;0;0]%Z (z9 0 ++ z9 1 ++ z9 0 ++ z9 1)%Z = false /\
+  CcGate.cubic_gate_judge [1200; 3;100;0;0;0; 1;100;0;0;0; 3;100;0;0;0]%Z (z9 0 ++ z9 1 ++ z9 0 ++ z9 0)%Z = true.
+Proof. vm_compute. repeat split. Qed.
+
 (* non-vacuity: slow start, a loss (12000 -> 8400), a second loss inside the recovery period
    (unchanged), then persistent congestion (-> 2400) *)
 Example C10_example :
